@@ -988,6 +988,7 @@ _EXCL_STAGES = lambda: [
     corr_stage("C10SHAREDOPT", 25, 150, validate=False),
     corr_stage("C09KEYS", 200, 2000, validate=False),
     corr_stage("C10WAITS", 150, 1500, validate=False),
+    corr_stage("C10NORESOLVE", 120, 1200, validate=False),
 ]
 
 PROPS["C09"] = dict(
